@@ -48,7 +48,32 @@ fn hook_now() -> chrono::DateTime<chrono::Utc> {
     dt_from_us(sched::now_us() + SKEW_US.with(|s| s.get()))
 }
 
+/// Swarm knob: in some runs every id (client ids, quoted ids, issued version ids) consists of
+/// decimal digits only and shares a long prefix with its siblings — the input class that trips
+/// numeric type affinity / lossy numeric comparison of id columns.
+static NUMERIC_IDS: std::sync::atomic::AtomicBool = std::sync::atomic::AtomicBool::new(false);
+
+pub fn numeric_ids() -> bool {
+    NUMERIC_IDS.load(Ordering::SeqCst)
+}
+
+fn numeric_id(seed: u64, n: u64) -> Uuid {
+    // 32 decimal digits: a seed-derived prefix, the counter in the last 8; version nibble 4, variant nibble 8
+    let mut x = crate::rng::mix(&[seed, 0xD161]);
+    let a = crate::rng::splitmix(&mut x) % 1_000_000_000_000;
+    let b = crate::rng::splitmix(&mut x) % 1_000_000_000_000;
+    let digits = format!("{:012}{:012}", a, b);
+    let mut d: Vec<u8> = digits.as_bytes()[..24].to_vec();
+    d.extend_from_slice(format!("{:08}", n % 100_000_000).as_bytes());
+    d[12] = b'4';
+    d[16] = b'8';
+    Uuid::parse_str(std::str::from_utf8(&d).unwrap()).expect("digit uuid")
+}
+
 pub fn make_id(seed: u64, n: u64) -> Uuid {
+    if numeric_ids() {
+        return numeric_id(seed, n);
+    }
     let mut x = crate::rng::mix(&[seed, n, 0x1D]);
     let a = crate::rng::splitmix(&mut x);
     let b = crate::rng::splitmix(&mut x);
@@ -79,12 +104,23 @@ fn hook_contended() {
 
 /// Install the hooks and reset clock and id source for a run.
 pub fn begin_run(seed: u64, start_us: i64) {
+    begin_run_styled(seed, start_us, seed);
+}
+
+pub fn set_numeric_ids(on: bool) {
+    NUMERIC_IDS.store(on, Ordering::SeqCst);
+}
+
+/// Like `begin_run`, with the id style (plain / digit-only) taken from another seed, so that a
+/// second world of the same plan names clients the same way.
+pub fn begin_run_styled(seed: u64, start_us: i64, style_seed: u64) {
     taskchampion_sync_server_core::verif::install(Some(taskchampion_sync_server_core::verif::Hooks {
         now: hook_now,
         new_v4: hook_new_v4,
         lock_contended: hook_contended,
     }));
     ID_SEED.store(crate::rng::mix(&[seed, 0x1D5EED]), Ordering::SeqCst);
+    NUMERIC_IDS.store(crate::rng::mix(&[style_seed, 0x4E0D]) % 9 == 0, Ordering::SeqCst);
     ID_CTR.store(0, Ordering::SeqCst);
     sched::set_now_us(start_us);
     SKEW_US.with(|s| s.set(0));
@@ -431,6 +467,33 @@ impl Instance {
             web,
             skew_us,
         }
+    }
+
+    /// An instance whose `Server` and `WebServer` own concrete `SqliteStorage` objects directly —
+    /// no wrapper in between, so whatever methods the storage trait has (or gains) reach the real
+    /// backend. Scheduling points then come from the shim VFS.
+    pub fn new_sqlite_raw(dir: &Path, cfg: Cfg, allow: Option<HashSet<Uuid>>, skew_us: i64) -> anyhow::Result<Instance> {
+        let lib = Server::new(
+            ServerConfig {
+                snapshot_days: cfg.days,
+                snapshot_versions: cfg.versions,
+            },
+            SqliteStorage::new(dir)?,
+        );
+        let web = WebServer::new(
+            ServerConfig {
+                snapshot_days: cfg.days,
+                snapshot_versions: cfg.versions,
+            },
+            allow,
+            SqliteStorage::new(dir)?,
+        );
+        Ok(Instance {
+            ctl: Arc::new(Ctl::default()),
+            lib,
+            web,
+            skew_us,
+        })
     }
 
     /// Execute a request through the library entry point.
